@@ -31,13 +31,14 @@ type Item struct {
 
 // Session is one case: a fresh host, how commands reach it, the items.
 type Session struct {
-	API         string `json:"api"`  // Opts.API ("" = no control connection configured)
-	Mode        string `json:"mode"` // "topic" (in-process client of the api topic) | "ws" (websocket client of /ws/api) | "direct" (handleAdminMessage)
-	Items       []Item `json:"items"`
-	GapUs       int    `json:"gap_us,omitempty"`      // mode "pipe": pause after every third command (0 = none): lets more commands reach the handler
-	Controllers int    `json:"controllers,omitempty"` // mode "pipe": websocket controllers on /ws/api sending their commands without waiting
-	TmpDir      string `json:"tmp_dir,omitempty"`     // created before and removed after the session: where rules with a "file" record to
-	Obs         []Obs  `json:"obs,omitempty"`
+	API         string   `json:"api"`  // Opts.API ("" = no control connection configured)
+	Mode        string   `json:"mode"` // "topic" (in-process client of the api topic) | "ws" (websocket client of /ws/api) | "direct" (handleAdminMessage)
+	Items       []Item   `json:"items"`
+	GapUs       int      `json:"gap_us,omitempty"`      // mode "pipe": pause after every third command (0 = none): lets more commands reach the handler
+	Controllers int      `json:"controllers,omitempty"` // mode "pipe": websocket controllers on /ws/api sending their commands without waiting
+	TmpDir      string   `json:"tmp_dir,omitempty"`     // created before and removed after the session: where rules with a "file" record to
+	Obs         []Obs    `json:"obs,omitempty"`
+	coqView     *Session // (parent, pipelined) the whole topic history as given to the model
 }
 
 var (
